@@ -117,6 +117,39 @@ func OneOf(b byte, set string) bool {
 	return false
 }
 
+var tempDir string
+
+// TempPath returns a path for a scratch file of the scenario (a virtual file system
+// with a crash model under the executor; a real temporary directory natively).
+func TempPath(name string) string {
+	if tempDir == "" {
+		d, err := os.MkdirTemp("", "verif-fs-")
+		if err != nil {
+			panic("verif replay: " + err.Error())
+		}
+		tempDir = d
+	}
+	return tempDir + "/" + name
+}
+
+// SetFile creates a file with durable content.
+func SetFile(path string, content []byte) {
+	if err := os.WriteFile(path, content, 0o644); err != nil {
+		panic("verif replay: " + err.Error())
+	}
+}
+
+// DurableFile returns what a restart would find at path after a crash: under the
+// executor the durable image of the file-system model (written-but-unsynced bytes are
+// durable up to an arbitrary prefix); natively the current file content.
+func DurableFile(path string) (content []byte, exists bool) {
+	b, err := os.ReadFile(path)
+	if err != nil {
+		return nil, false
+	}
+	return b, true
+}
+
 // NoLargeAlloc runs fn and fails (label "alloc-limit") if it allocates more than limit
 // bytes in a single make/append. Natively the total allocation of fn is measured.
 func NoLargeAlloc(limit int, fn func()) {
